@@ -376,8 +376,10 @@ class Crazyflie():
                             self._answer_patterns[pattern] = new_timer
                             new_timer.start()
                     else:
+                        # Answered (or the link was closed) while the timer fired
                         logger.debug('Resend requested, but no pattern found: %s',
                                      self._answer_patterns)
+                        return
                 self.link.send_packet(pk)
                 self.packet_sent.call(pk)
         finally:
